@@ -304,4 +304,9 @@ def mhistBad (tag : String) (isNoLoop : Nat → Bool) (clr : Nat → Nat → Boo
     mhistBad tag isNoLoop clr fv maxFire (i + 1) (if fv v then since else since.filter (· != n)) ops rs
   | i, _, _, _ => s!"shape:{tag}@{i}"
 
+/-! #### rules whose actions retract facts (`K` cases) -/
+
+/-- a no-loop rule NAME of an action rule set: every registration of the name is no-loop -/
+def nameNoLoopA (rules : List (Nat × CRule × List RAct)) (n : Nat) : Bool := rules.all (fun r => r.1 != n || r.2.1.noLoop)
+
 end C07
